@@ -135,6 +135,29 @@ import "github.com/nspcc-dev/neo-go/pkg/interop"
 func OnNEP11Payment(from interop.Hash160, amount int, token []byte, data any) {}
 `
 
+// nnsFwdSrc: a receiver that hands every name it is given on to the account fixed at its deployment, from inside the
+// payment callback (a re-entrant transfer while the outer one is still running).
+const nnsFwdSrc = `package fwd
+
+import (
+	"github.com/nspcc-dev/neo-go/pkg/interop"
+	"github.com/nspcc-dev/neo-go/pkg/interop/contract"
+	"github.com/nspcc-dev/neo-go/pkg/interop/runtime"
+	"github.com/nspcc-dev/neo-go/pkg/interop/storage"
+)
+
+func _deploy(data any, isUpdate bool) {
+	if !isUpdate {
+		storage.Put(storage.GetContext(), "to", data.([]any)[0])
+	}
+}
+
+func OnNEP11Payment(from interop.Hash160, amount int, token []byte, data any) {
+	to := storage.Get(storage.GetContext(), "to").(interop.Hash160)
+	contract.Call(runtime.GetCallingScriptHash(), "transfer", contract.All, to, token, nil)
+}
+`
+
 func NewNNSDriver(mode string) *NNSDriver {
 	d := &NNSDriver{Mode: mode}
 	add := func(o ...nnsOp) { d.ops = append(d.ops, o...) }
@@ -160,6 +183,8 @@ func NewNNSDriver(mode string) *NNSDriver {
 				nnsOp{kind: "transfer", name: n, who: "U1", signer: s("U2")},
 				nnsOp{kind: "transfer", name: n, who: "U1", signer: s("U1")}, // possibly to self
 				nnsOp{kind: "transfer", name: n, who: "P", signer: s("U1")},
+				nnsOp{kind: "transfer", name: n, who: "F", signer: s("U1")}, // a contract that passes the name on to U2 from inside the callback
+				nnsOp{kind: "transfer", name: n, who: "F", signer: s("U2")},
 				nnsOp{kind: "transfer", name: n, who: "U2", signer: s("D")}, // an admin cannot transfer
 				nnsOp{kind: "renew", name: n, years: 1, signer: s("U1")},
 				nnsOp{kind: "renew", name: n, years: 10, signer: s("U1")},
@@ -220,6 +245,10 @@ func NewNNSDriver(mode string) *NNSDriver {
 			nnsOp{kind: "register", name: "aa.com", who: "U2", signer: s("U2")},
 			nnsOp{kind: "register", name: "x.aa.com", who: "U2", signer: s("U2", "U1")},
 			nnsOp{kind: "register", name: "z.aa.com", who: "U2", signer: s("U1")},
+			// the parent's admin alone, for an owner who does not sign: the parent's owner itself, or somebody else
+			nnsOp{kind: "register", name: "z.aa.com", who: "U1", signer: s("D")},
+			nnsOp{kind: "register", name: "z.x.aa.com", who: "U1", signer: s("D")},
+			nnsOp{kind: "register", name: "z.aa.com", who: "U2", signer: s("D")},
 		)
 		for _, n := range []string{"aa.com", "x.aa.com"} {
 			for _, sg := range sets {
@@ -241,6 +270,25 @@ func NewNNSDriver(mode string) *NNSDriver {
 			add(nnsOp{kind: "regTLD", name: "org", signer: sg}, nnsOp{kind: "setPrice", years: 7, signer: sg},
 				nnsOp{kind: "renew", name: "com", years: 1, signer: sg}, nnsOp{kind: "updSOA", name: "com", data: "new@x.y", signer: sg},
 				nnsOp{kind: "add", name: "com", typ: rtTXT, data: "t1", signer: sg})
+		}
+	case "C11m":
+		// three registered levels with three owners (aa.com: U1, x.aa.com: U2, y.x.aa.com: S); the middle one runs
+		// out first, which must not hand the branch below it to the owner of the name above it
+		d.pre = []string{"aa.com", "x.aa.com", "y.x.aa.com"} // Build renews the outer two and hands the inner two on
+		d.names = []string{"aa.com", "x.aa.com", "y.x.aa.com", "w.y.x.aa.com", "z.y.x.aa.com"}
+		add(nnsOp{kind: "add", name: "y.x.aa.com", typ: rtTXT, data: "t0", signer: s("S")},
+			nnsOp{kind: "time", step: "exp"},
+			nnsOp{kind: "register", name: "x.aa.com", who: "U1", signer: s("U1")}) // take-over of the expired middle name by the owner above
+		for _, sg := range [][]string{s("U1"), s("U2"), s("S"), s("D"), s("Cm")} {
+			add(nnsOp{kind: "add", name: "y.x.aa.com", typ: rtTXT, data: "t1", signer: sg},
+				nnsOp{kind: "add", name: "w.y.x.aa.com", typ: rtTXT, data: "t1", signer: sg},
+				nnsOp{kind: "set", name: "y.x.aa.com", typ: rtTXT, id: 0, data: "t2", signer: sg},
+				nnsOp{kind: "del", name: "y.x.aa.com", typ: rtTXT, signer: sg},
+				nnsOp{kind: "updSOA", name: "y.x.aa.com", data: "new@x.y", signer: sg},
+				nnsOp{kind: "renew", name: "y.x.aa.com", years: 1, signer: sg},
+				nnsOp{kind: "register", name: "z.y.x.aa.com", who: "D", signer: append(s("D"), sg...)},
+				nnsOp{kind: "transfer", name: "y.x.aa.com", who: "U2", signer: sg},
+				nnsOp{kind: "setAdmin", name: "y.x.aa.com", who: "nil", signer: sg})
 		}
 	case "C11even":
 		// committee-only operations on a 4-key committee: the majority is 3, exactly half is not
@@ -274,7 +322,7 @@ func NewNNSDriver(mode string) *NNSDriver {
 			nnsOp{kind: "add", name: "x.aa.com", typ: rtTXT, data: "tx", signer: u},
 			nnsOp{kind: "del", name: "x.aa.com", typ: rtTXT, signer: u},
 			nnsOp{kind: "add", name: "y.x.aa.com", typ: rtTXT, data: "ty", signer: u},
-			nnsOp{kind: "add", name: "yx.aa.com", typ: rtTXT, data: "t", signer: u}, // shares a textual suffix with x.aa.com without a label boundary
+			nnsOp{kind: "add", name: "yx.aa.com", typ: rtTXT, data: "t", signer: u},       // shares a textual suffix with x.aa.com without a label boundary
 			nnsOp{kind: "add", name: "x.aa.com", typ: rtCNAME, data: "bb.com", signer: u}, // the one-CNAME rule is per name, also for a sub-name kept under aa.com
 			nnsOp{kind: "add", name: "x.aa.com", typ: rtCNAME, data: "cc.com", signer: u},
 			nnsOp{kind: "register", name: "x.aa.com", who: "U1", signer: u},
@@ -342,8 +390,10 @@ func (d *NNSDriver) Build() *World {
 	nh := w.Deploy("nns", CompileDir(Repo, "nns"), []any{[]any{[]any{"com", "ops@x.y"}}}).Hash
 	c := CompileSource("nnsprobe", nnsProbeSrc, &compiler.Options{Name: "nnsprobe", NoEventsCheck: true, NoPermissionsCheck: true, Permissions: WildPermissions()})
 	dp := w.Deploy("nnsprobe", c, nil)
+	fc := CompileSource("nnsfwd", nnsFwdSrc, &compiler.Options{Name: "nnsfwd", NoEventsCheck: true, NoPermissionsCheck: true, Permissions: WildPermissions()})
+	df := w.Deploy("nnsfwd", fc, []any{w.Acct("U2").Hash})
 	d.acc = map[string]util.Uint160{"U1": w.Acct("U1").Hash, "U2": w.Acct("U2").Hash, "D": w.Acct("D").Hash, "S": w.Acct("S").Hash,
-		"P": dp.Hash, "Cm": w.Comm, "Al": w.Alpha}
+		"P": dp.Hash, "F": df.Hash, "Cm": w.Comm, "Al": w.Alpha}
 	if n%2 == 0 {
 		// exactly half of an even committee is no majority
 		half := MultiSigner(n/2, w.Keys, w.Pubs)
@@ -364,6 +414,12 @@ func (d *NNSDriver) Build() *World {
 	}
 	if d.Mode == "C12m" {
 		w.Invoke(nh, u1, "renew", "aa.com", int64(1))
+	}
+	if d.Mode == "C11m" {
+		w.Invoke(nh, u1, "renew", "aa.com", int64(1))
+		w.Invoke(nh, u1, "renew", "y.x.aa.com", int64(1))
+		w.Invoke(nh, u1, "transfer", d.acc["U2"], "x.aa.com", nil)
+		w.Invoke(nh, u1, "transfer", d.acc["S"], "y.x.aa.com", nil)
 	}
 	if d.Mode == "C12r" {
 		for k := 1; k <= 15; k++ {
@@ -636,15 +692,22 @@ func (d *NNSDriver) Step(x *Exec, n *Node, i int) StepResult {
 			expRet = "i0"
 		default:
 			selfTransfer = r.owner == to
-			if r.owner != to {
+			final := to
+			if o.who == "F" {
+				final = d.hexOf("U2") // the forwarder passes it on before the outer transfer returns
+			}
+			if r.owner != final || final != to {
 				nm.bal[r.owner]--
-				nm.bal[to]++
+				nm.bal[final]++
 				r2 := r
-				r2.owner, r2.admin = to, ""
+				r2.owner, r2.admin = final, ""
 				nm.names[o.name] = r2
 			}
 			expRet = "i1"
 			expNotifs = []Notif{{"nns", "Transfer", []any{"x" + r.owner, "x" + to, "i1", NXs(o.name)}}}
+			if final != to {
+				expNotifs = append(expNotifs, Notif{"nns", "Transfer", []any{"x" + to, "x" + final, "i1", NXs(o.name)}})
+			}
 		}
 	case "renew", "renew1":
 		scr = Script(h, "renew", o.name, o.years)
@@ -863,7 +926,7 @@ func (d *NNSDriver) readback(x *Exec, prev, nn *Node, m, nm *nnsModel, outcome s
 	// ---- NEP-11 accounting ----
 	ts := rd("totalSupply")
 	sum := 0
-	for _, sym := range []string{"U1", "U2", "P", "D", "S"} {
+	for _, sym := range []string{"U1", "U2", "P", "F", "D", "S"} {
 		b := rd("balanceOf", d.acc[sym])
 		want := nm.bal[d.hexOf(sym)]
 		if !Same(b.Ret0(), NI(int64(want))) {
